@@ -505,9 +505,16 @@ class Program:
         self.fns = {}
         self.consts = {}
         self.traits = {}
+        self._stripped = None
 
     def body(self, path):
         b = self.bodies.get(path)
+        if b is None:
+            if self._stripped is None:
+                self._stripped = {}
+                for k, v in self.bodies.items():
+                    self._stripped.setdefault(strip_generics(k), v)
+            b = self._stripped.get(strip_generics(path))
         return b
 
     def find_bodies(self, pat):
